@@ -308,6 +308,12 @@ func New(opts Options) *World {
 func (w *World) interceptors() interceptor.Funcs {
 	return interceptor.Funcs{
 		Get: func(ctx context.Context, c client.WithWatch, key client.ObjectKey, obj client.Object, opts ...client.GetOption) error {
+			// the API server ignores a namespace given for a cluster-scoped resource (the real client drops it via
+			// NamespaceIfScoped); the fake object tracker would answer NotFound
+			switch obj.(type) {
+			case *corev1.PersistentVolume, *corev1.Node, *storagev1.StorageClass, *storagev1.CSINode, *storagev1.VolumeAttachment, *v1.NodePool, *v1.NodeClaim:
+				key.Namespace = ""
+			}
 			k := key.Name
 			if key.Namespace != "" {
 				k = key.Namespace + "/" + key.Name
